@@ -58,6 +58,15 @@ TUpdate ==
        \/ Ev.res = "unknown"  /\ UpdateUnknown(Ev.p, Ev.c)
        \/ Ev.res = "hashfail" /\ Ev.hashed /\ UpdateHashFail(Ev.p)
 
+(* A build's generated tables.hpp: dispatch data that update produced in ANOTHER process from the same catalogs  *)
+(* (the generator stage of a two-stage build of one source) is installed here by the decoder; update never runs   *)
+(* in this process.  From then on calls are served as after update.                                             *)
+TInstalled ==
+    /\ IsEvent("installed")
+    /\ lay' = [lay EXCEPT ![Ev.p] = NoLayout] /\ UNCHANGED nodes
+    /\ soff' = [soff EXCEPT ![Ev.p] = <<>>] /\ UNCHANGED enc
+    /\ InstallEncoded(Ev.p)
+
 (* the whole outcome table of a method through resolve(): rows [t, o].      *)
 (* Exactly the legal tuples must have been exercised.                      *)
 RowSet(rows) == {rows[i][1] : i \in DOMAIN rows}
@@ -333,8 +342,11 @@ TNext ==
     /\ KeepLay
     /\ IsEvent("next")
     /\ ~dead /\ fresh[Ev.p] /\ inst[Ev.p].ok /\ Ev.m \in DOMAIN inst[Ev.p].D
-    /\ {Ev.rows[i][1] : i \in DOMAIN Ev.rows} =
-          {x.d : x \in {y \in inst[Ev.p].D[Ev.m] : IsConcreteOnly(Ev) => \A i \in DOMAIN y.vp : y.vp[i] \notin inst[Ev.p].abs}}
+    /\ LET skipped == IF "skip" \in DOMAIN Ev THEN {Ev.skip[i] : i \in DOMAIN Ev.skip} ELSE {}   \* definitions registered without a next pointer
+           observed == {Ev.rows[i][1] : i \in DOMAIN Ev.rows}
+       IN /\ observed \cap skipped = {}
+          /\ observed \cup skipped =
+               {x.d : x \in {y \in inst[Ev.p].D[Ev.m] : IsConcreteOnly(Ev) => \A i \in DOMAIN y.vp : y.vp[i] \notin inst[Ev.p].abs}}
     /\ \A i \in DOMAIN Ev.rows : /\ Ev.rows[i][2] = NextOf(Ev.p, Ev.m, Ev.rows[i][1])   \* by calling through it
                                 /\ Ev.rows[i][3] = NextOf(Ev.p, Ev.m, Ev.rows[i][1])   \* by pointer identity
     /\ obs' = [k |-> "next"]
@@ -342,7 +354,7 @@ TNext ==
 
 TNextStep ==
     \/ TReset \/ TClass \/ TUnclass \/ TMethod \/ TUnmethod \/ TDef \/ TUndef \/ THandler
-    \/ TUpdate \/ TTable \/ TCTable \/ TResolve \/ TCall \/ TDied \/ TNext \/ TEnd \/ TLayout \/ TReads \/ TSkip \/ TStatics \/ TEncoded \/ TDecoded \/ TOffsets \/ TSLoad \/ TSSkip \/ TNode \/ TVptr \/ TVDerive \/ TVDrop \/ TVGet \/ TVCall \/ TVSkip
+    \/ TUpdate \/ TInstalled \/ TTable \/ TCTable \/ TResolve \/ TCall \/ TDied \/ TNext \/ TEnd \/ TLayout \/ TReads \/ TSkip \/ TStatics \/ TEncoded \/ TDecoded \/ TOffsets \/ TSLoad \/ TSSkip \/ TNode \/ TVptr \/ TVDerive \/ TVDrop \/ TVGet \/ TVCall \/ TVSkip
 
 TSpec == TInit /\ [][TNextStep]_tvars
 
